@@ -89,13 +89,14 @@ def reference(prog):
         want = ref.run()
         args = ref.args
         pert = genexpr.Ref(prog).run(eps=1e-11)
+        pert2 = genexpr.Ref(prog).run(eps=-1e-11)      # both directions: a comparison of two nearly equal values must not depend on which way the rounding went
     except genexpr.NonFinite as e:
         raise Discard('reference-nonfinite')
     tols = []
-    for w, p in zip(want, pert):
+    for w, p, p2 in zip(want, pert, pert2):
         scale = 1 + (abs(w).max() if w.size else 0)
         if w.dtype.kind in 'bi':
-            if not numpy.array_equal(w, p):
+            if not numpy.array_equal(w, p) or not numpy.array_equal(w, p2):
                 raise Discard('kink-sensitive')
             tols.append(0)
         else:
